@@ -216,23 +216,35 @@ fn %(prop)s_pos_d%(idx)d() {
 
 
 def splice_cases(doc, tier):
-    """(s, e, ins) cases; offsets are char boundaries of doc unless stated"""
+    """(s, e, ins) cases; offsets are char boundaries of doc.  Inserted texts cover: nothing, ASCII, LF, CRLF, an
+    astral character, a lone CR and ASCII + CR (a CR must be dropped whatever the edit looks like - in particular
+    when the edit keeps the byte length and contains no LF, the shape a "nothing moved" fast path would test)."""
     b = ref.boundaries(doc)
     n = ref.byte_len(doc)
     pairs = [(s, e) for s in b for e in b if s <= e]
-    inss = ['', 'x', '\n', '\r\n', '\U0001F4A3']
+    inss = ['', 'x', '\n', '\r\n', '\U0001F4A3', '\r', 'x\r']
+    raw = doc.encode('utf-8')
+    # same-length ASCII replacements that contain a CR
+    same_len = []
+    for (s, e) in pairs:
+        seg = raw[s:e]
+        if 1 <= len(seg) <= 2 and all(c < 0x80 and c != 0x0A for c in seg):
+            same_len.append((s, e, '\r' if len(seg) == 1 else 'x\r'))
     if tier == 'quick':
         cls = set()
         cls.add((0, 0)); cls.add((n, n)); cls.add((0, n))
         if len(b) > 2:
             cls.add((b[1], b[1])); cls.add((b[1], b[2])); cls.add((b[-2], n))
-        pairs = sorted(cls)
         out = []
-        for k, (s, e) in enumerate(pairs):
+        for k, (s, e) in enumerate(sorted(cls)):
             out.append((s, e, inss[k % len(inss)]))
+        for c in same_len[:2]:
+            if c not in out:
+                out.append(c)
         return out
-    # thorough: every boundary pair, two inserted texts each (rotating through the five)
-    return [(s, e, inss[(2 * k + j) % len(inss)]) for k, (s, e) in enumerate(pairs) for j in range(2)]
+    # thorough: every boundary pair, two inserted texts each (rotating through the seven), plus the same-length CR cases
+    out = [(s, e, inss[(2 * k + j) % len(inss)]) for k, (s, e) in enumerate(pairs) for j in range(2)]
+    return out + [c for c in same_len if c not in out]
 
 
 def h_splice(idx, doc, cases, chunk):
